@@ -370,7 +370,9 @@ pub struct CCfg {
     pub batch: u32,
     /// 0 manual store_offset after every message (auto-commit disabled), 1 When(PollingMessages),
     /// 2 When(ConsumingEachMessage), 3 When(ConsumingEveryNthMessage(2)), 4 When(ConsumingAllMessages),
-    /// 5 IntervalOrWhen(1 h, ConsumingEachMessage), 6 Disabled and never stored (offset strategy only)
+    /// 5 IntervalOrWhen(1 h, ConsumingEachMessage), 6 Disabled and never stored (offset strategy only),
+    /// 7 Disabled, and the application stores the last yielded offset only when the poll window is used up
+    /// (or before the consumer is dropped): polls overlap, exactly-once rests on the consumer's own filter
     pub commit: u8,
     pub poll_interval: bool,
     pub enc: bool,
@@ -383,7 +385,7 @@ impl CCfg {
             ["consumer(c1,partition 1)", "group(g1,1 member,2 partitions)", "group(g1,2 members,2 partitions)"][self.kind as usize],
             ["next", "offset(0)"][self.strategy as usize],
             self.batch,
-            ["manual-after-each", "when-polling", "when-each", "when-every-2nd", "when-all", "interval(1h)-or-when-each", "disabled"][self.commit as usize],
+            ["manual-after-each", "when-polling", "when-each", "when-every-2nd", "when-all", "interval(1h)-or-when-each", "disabled", "manual-when-window-used-up"][self.commit as usize],
             if self.poll_interval { "1ms" } else { "none" },
             self.enc as u8
         )
@@ -407,7 +409,7 @@ impl CCfg {
     }
     /// the committed offset may never pass the last message yielded
     fn commits_on_consumption(&self) -> bool {
-        matches!(self.commit, 0 | 2 | 3 | 4 | 5)
+        matches!(self.commit, 0 | 2 | 3 | 4 | 5 | 7)
     }
     fn identity(&self) -> Consumer {
         if self.kind == 0 {
@@ -501,6 +503,11 @@ impl CState {
     /// server has forgotten the client (and with it its group membership).
     async fn retire(&mut self, idx: usize) -> Result<(), String> {
         let Some(m) = self.members[idx].take() else { return Ok(()) };
+        if self.cfg.commit == 7 {
+            for (p, l) in m.last.clone() {
+                m.consumer.store_offset(l, Some(p)).await.map_err(|e| format!("store_offset({l}, partition {p}) before dropping the consumer: {e}"))?;
+            }
+        }
         let Member { client, consumer, client_id, .. } = m;
         drop(consumer);
         yields(6).await;
@@ -671,6 +678,47 @@ async fn next_once(st: &mut CState, idx: usize, res: &mut JobResult) -> Result<(
         res.bump("next_skipped_nothing_owed");
         return Ok(());
     }
+    if st.cfg.commit == 7 {
+        // lazy application commit: the poll always restarts right after the committed offset; when its window
+        // (batch size) no longer reaches beyond what was yielded, the application stores the last yielded
+        // offset of every partition - until then polls overlap with what was already yielded
+        let batch = st.cfg.batch as u64;
+        let mut to_store: Vec<(u32, u64)> = Vec::new();
+        let mut reachable = false;
+        for p in &assigned {
+            let end = st.produced.get(p).map(|v| v.len() as u64).unwrap_or(0);
+            let from = stored_before[p].map(|s| s + 1).unwrap_or(0);
+            match m.last.get(p) {
+                Some(l) => {
+                    if end > l + 1 && from + batch > l + 1 {
+                        reachable = true;
+                    } else if stored_before[p] != Some(*l) {
+                        to_store.push((*p, *l));
+                    }
+                }
+                None => {
+                    if end > from {
+                        reachable = true;
+                    }
+                }
+            }
+        }
+        if !reachable {
+            if to_store.is_empty() {
+                res.bump("next_skipped_nothing_owed");
+                return Ok(());
+            }
+            let m = st.members[idx].as_ref().unwrap();
+            for (p, l) in to_store {
+                m.consumer.store_offset(l, Some(p)).await.map_err(|e| format!("store_offset({l}, partition {p}): {e}"))?;
+                st.log.push(format!("app stored p{p}@{l}"));
+            }
+            res.bump("lazy_application_commits");
+            // the next call of this operation polls from the new position
+            return Ok(());
+        }
+        res.bump("polls_overlapping_yielded_messages");
+    }
     let m = st.members[idx].as_mut().unwrap();
     // A consumer that is owed a message answers after one or two polls. The owned clock ticks once per
     // clock reading (the consumer reads it for every poll), so "several thousand readings and still
@@ -815,15 +863,18 @@ pub fn plan(tier: &str) -> (PropMeta, Vec<Job>) {
     let mut ccfgs = Vec::new();
     for kind in 0..3u8 {
         for strategy in 0..2u8 {
-            for commit in 0..7u8 {
+            for commit in 0..8u8 {
                 if commit == 6 && strategy == 0 {
                     continue; // next + never committing re-polls the same messages for ever: not a meaningful setting
+                }
+                if commit == 7 && strategy != 0 {
+                    continue; // the lazy application commit only matters when the server-side position drives the poll
                 }
                 let batches: &[u32] = if quick { &[2] } else { &[1, 2, 3] };
                 for &batch in batches {
                     let poll_interval = (kind + strategy + commit) % 3 == 0;
                     let enc = (kind + commit) % 4 == 1;
-                    if quick && !(commit <= 4 || kind == 0) {
+                    if quick && !(commit <= 4 || commit == 7 || kind == 0) {
                         continue;
                     }
                     ccfgs.push(CCfg { kind, strategy, batch, commit, poll_interval, enc });
@@ -845,7 +896,7 @@ pub fn plan(tier: &str) -> (PropMeta, Vec<Job>) {
         id: "C20",
         level: "model_checking",
         rule: format!(
-            "part P: {} producer settings (batch size none/1/2{} x send interval none/1 ms x partitioning default/partition id/messages key/custom partitioner, retries and client-side encryption spread over them) x every history of {pdepth} calls over send(3), send_one, send_to(other topic), send(1), send(0), send_with_partitioning, send_to with partitioning; after every call all six partitions of both topics are read back and every batch must be whole, contiguous, in the addressed topic and partition, in submission order, nothing lost or duplicated. part C: {} consumer settings (plain consumer / group with one member / group with a second member joining and leaving x strategy next/offset(0) x batch size x seven commit modes, poll interval and encryption spread over them) x every history of {cdepth} operations over produce, next() (called only when a message is owed), drop-and-re-create, second member joins/leaves; per incarnation and partition the yielded offsets must be strictly consecutive (gaps only over committed offsets), a new incarnation must start right after the committed offset, payloads must be the produced ones, and after every yielded message the committed offset of every partition must not exceed the partition's content nor - in modes that commit on consumption - the last message yielded. A state is (log lengths, committed offsets, per-member cursors)",
+            "part P: {} producer settings (batch size none/1/2{} x send interval none/1 ms x partitioning default/partition id/messages key/custom partitioner, retries and client-side encryption spread over them) x every history of {pdepth} calls over send(3), send_one, send_to(other topic), send(1), send(0), send_with_partitioning, send_to with partitioning; after every call all six partitions of both topics are read back and every batch must be whole, contiguous, in the addressed topic and partition, in submission order, nothing lost or duplicated. part C: {} consumer settings (plain consumer / group with one member / group with a second member joining and leaving x strategy next/offset(0) x batch size x eight commit modes (one of them an application that commits lazily, so that polls overlap with what was already yielded), poll interval and encryption spread over them) x every history of {cdepth} operations over produce, next() (called only when a message is owed), drop-and-re-create, second member joins/leaves; per incarnation and partition the yielded offsets must be strictly consecutive (gaps only over committed offsets), a new incarnation must start right after the committed offset, payloads must be the produced ones, and after every yielded message the committed offset of every partition must not exceed the partition's content nor - in modes that commit on consumption - the last message yielded. A state is (log lengths, committed offsets, per-member cursors)",
             pcfgs.len(),
             if quick { "" } else { "/3" },
             ccfgs.len()
@@ -959,7 +1010,7 @@ fn classify(sj: &SdkJob, msg: &str) -> String {
     // a stall of a `next` consumer is named together with the commit mode and batch size it needs
     if let (Some(c), true) = (&sj.ccfg, symptom == "owed-message-never-yielded") {
         if c.strategy == 0 {
-            let mode = ["manual", "when-polling", "when-each", "when-every-2nd", "when-all", "interval-or-each", "disabled"][c.commit as usize];
+            let mode = ["manual", "when-polling", "when-each", "when-every-2nd", "when-all", "interval-or-each", "disabled", "manual-lazy"][c.commit as usize];
             return format!("C20:{setting}:{symptom}:commit={mode}:batch={}", c.batch);
         }
     }
